@@ -184,7 +184,9 @@ def k2_dispatch(cmd: int, idx: List[int]) -> bool:
     applicable = any(w == '-' or any(w.endswith(e) and len(w) > len(e) for e in KNOWN_EXT) for w in words)
     if applicable:
         return calls == [(name, [name] + words)]
-    return calls == []
+    # nothing named can be read (a missing file or one of a kind no extension handles): nothing runs and the
+    # command ends with a non-zero status
+    return calls == [] and kind == 'exit' and r not in (0, None)
 
 
 # ---- K3: file helpers ------------------------------------------------------------------------------------------
@@ -361,6 +363,4 @@ def _obs():
 OBLIGATIONS = _obs()
 ASSUMPTIONS = ['"same constraints and verdicts as the library" reduces to: the CLI calls the same library function with '
                'the keyword arguments K1 decides, on the frame load_df returns']
-OUTSIDE = ['CSV/parquet loading and saving themselves; stdin; that the loaded frame equals "the" frame',
-           'an input whose extension no extension recognises prints help and exits 0 (not one of the cases the '
-           'property lists)']
+OUTSIDE = ['CSV/parquet loading and saving themselves; stdin; that the loaded frame equals "the" frame']
